@@ -171,6 +171,7 @@ def run_with(case, decisions=None, rng=None, **kw):
                            shadow_exec=case.get("shadow_exec", False),
                            faults=case.get("faults", ()),
                            transport_fault=case.get("transport_fault"),
+                           tamper=case.get("tamper"),
                            **kw)
     return res, ch.trace
 
@@ -277,6 +278,7 @@ def replay_doc(prop, seed, stream, run, case, decisions, classes, details,
         "real_codegen": case.get("real_codegen", False),
         "faults": list(case.get("faults", ())),
         "transport_fault": case.get("transport_fault"),
+        "tamper": case.get("tamper"),
         "schedule": decisions, "stop_after": case.get("stop_after", "execute"),
         "mode": case.get("mode", "threads"), "configs": case.get("configs"),
         "verdict_classes": classes, "target_class": target_class,
@@ -291,6 +293,7 @@ def case_from_doc(doc):
             "real_codegen": doc.get("real_codegen", False),
             "faults": doc.get("faults", []),
             "stop_after": doc.get("stop_after", "execute"),
+            "tamper": doc.get("tamper"),
             "transport_fault": doc.get("transport_fault")}
 
 
